@@ -13,10 +13,17 @@
 (* 2^m the invariants demand Stratified(m) of every coordinate and Net2(m) *)
 (* of a pair.  ClosedForm ties the step-by-step generator to the closed    *)
 (* form used by the trace spec to enter the sequence at an arbitrary seed. *)
+(*                                                                         *)
+(* SessionSpec (spec -> code): every sequence of SessionLen calls over a   *)
+(* small alphabet of API calls (all routes, both methods, seeds 1..3,      *)
+(* dimensions 1..2) executed by the specification itself -- a call is a    *)
+(* Seek followed by Steps -- and entered in the observation register.      *)
+(* Each complete sequence is printed ("S|<json>") and replayed through the *)
+(* real API by the harness.                                                *)
 (***************************************************************************)
 EXTENDS QuasiRandom, Json, IOUtils
 
-CONSTANTS MaxM, NBlocks
+CONSTANTS MaxM, NBlocks, SessionLen
 
 Tab == JsonDeserialize(IOEnv.SOBOL_FILE)
 Rows == Tab.rows               \* <<[d, a, m]>>: rows of the table, dimension d (d = 1: m = <<>>)
@@ -26,21 +33,21 @@ VOf(w) == [c \in 1..Len(Walks[w]) |-> VTab[Walks[w][c]]]
 
 ASSUME MaxM \in 1..Bits /\ Bits <= 20
 
-VARIABLES blk, walk, H
-vars == <<blk, walk, n, X, H>>
+VARIABLES blk, walk, H, sess, memo
+vars == <<blk, walk, n, X, H, sess, memo>>
 
-Init == blk = 0 /\ walk = 0 /\ n = 0 /\ X = <<>> /\ H = <<>>
+Init == blk = 0 /\ walk = 0 /\ n = 0 /\ X = <<>> /\ H = <<>> /\ sess = <<>> /\ memo = <<>>
 
-PickBlock == blk = 0 /\ blk' \in 1..NBlocks /\ UNCHANGED <<walk, n, X, H>>
+PickBlock == blk = 0 /\ blk' \in 1..NBlocks /\ UNCHANGED <<walk, n, X, H, sess, memo>>
 PickWalk == /\ blk > 0 /\ walk = 0
             /\ walk' \in {w \in 1..Len(Walks) : w % NBlocks = blk - 1}
             /\ Reset(VOf(walk'))
             /\ H' = [c \in 1..Len(Walks[walk']) |-> <<0>>]
-            /\ UNCHANGED blk
+            /\ UNCHANGED <<blk, sess, memo>>
 StepWalk == /\ walk > 0 /\ n + 1 < Pow2(MaxM)
             /\ Step(VOf(walk))
             /\ H' = [c \in DOMAIN H |-> Append(H[c], X'[c])]
-            /\ UNCHANGED <<blk, walk>>
+            /\ UNCHANGED <<blk, walk, sess, memo>>
 Next == PickBlock \/ PickWalk \/ StepWalk
 Spec == Init /\ [][Next]_vars
 
@@ -56,4 +63,50 @@ UnitCube == walk > 0 => \A c \in DOMAIN X : InUnit(X[c])
 ClosedForm == walk > 0 => X = SeekX(VOf(walk), n)
 StratifiedAll == (walk > 0 /\ IsPow2(Points)) => \A c \in DOMAIN H : Stratified(H[c], Log2(Points))
 NetFirstTwo == (walk > 0 /\ Len(Walks[walk]) = 2 /\ IsPow2(Points)) => Net2(H[1], H[2], Log2(Points))
+
+(* ---- SessionSpec ---------------------------------------------------------- *)
+Methods == {"sobol", "kgf"}
+SSeeds == 1..3
+SDims == 1..2
+Alphabet ==
+  [route : {"single"}, method : Methods, a : SSeeds, b : SDims, c : {0}]
+  \cup {r \in [route : {"batch"}, method : Methods, a : SSeeds, b : SSeeds, c : SDims] : r.a <= r.b}
+  \cup [route : {"front"}, method : Methods, a : 1..2, b : 0..2, c : SSeeds]
+
+(* the call the front end's documentation promises *)
+Dispatch(c) == IF c.route # "front" THEN c
+               ELSE IF c.b = 0 THEN [route |-> "single", method |-> c.method, a |-> c.c, b |-> c.a, c |-> 0]
+               ELSE [route |-> "batch", method |-> c.method, a |-> c.c, b |-> c.c + c.a - 1, c |-> c.b]
+Keys(c) == {KeyOf(c, r) : r \in 1..NumPoints(c)}
+
+FirstTwoV(D) == [k \in 1..D |-> VTab[Walks[Len(Walks)][k]]]     \* the last walk is <<1, 2>>
+RECURSIVE WalkRows(_, _, _, _)
+WalkRows(V, i, Y, k) == IF k = 0 THEN <<>> ELSE <<Y>> \o WalkRows(V, i + 1, StepX(V, i, Y), k - 1)
+(* what the specification returns for a call; Korobov points are uninterpreted *)
+SpecRows(c) ==
+  IF c.method = "sobol"
+  THEN LET V == FirstTwoV(DimOf(c))
+           i0 == IndexOfSeed(FirstSeed(c))
+       IN WalkRows(V, i0, SeekX(V, i0), NumPoints(c))
+  ELSE [r \in 1..NumPoints(c) |-> <<"kgf", FirstSeed(c) + r - 1, DimOf(c)>>]
+RECURSIVE RememberAll(_, _, _, _)
+RememberAll(mm, c, rows, r) == IF r > Len(rows) THEN mm
+                               ELSE RememberAll(Remember(mm, KeyOf(c, r), rows[r]), c, rows, r + 1)
+Compact(c) == <<c.route, c.method, c.a, c.b, c.c>>
+
+AddCall == /\ Len(sess) < SessionLen
+           /\ \E c \in Alphabet :
+                /\ sess' = Append(sess, c)
+                /\ memo' = RememberAll(memo, c, SpecRows(c), 1)
+                /\ (Len(sess') = SessionLen) => PrintT("S|" \o ToJson([k \in DOMAIN sess' |-> Compact(sess'[k])]))
+           /\ UNCHANGED <<blk, walk, n, X, H>>
+SessionSpec == Init /\ [][AddCall]_vars
+
+SessionRegisterConsistent ==
+  \A k \in DOMAIN sess : LET rows == SpecRows(sess[k])
+                         IN \A r \in DOMAIN rows : memo[KeyOf(sess[k], r)] = rows[r]
+SessionFrontIsDispatch ==
+  \A k \in DOMAIN sess : /\ Keys(sess[k]) = Keys(Dispatch(sess[k]))
+                         /\ OneDimensional(sess[k]) = OneDimensional(Dispatch(sess[k]))
+                         /\ SpecRows(sess[k]) = SpecRows(Dispatch(sess[k]))
 =============================================================================
